@@ -517,19 +517,16 @@ def run(ctx: RuleContext, p: Program) -> None:
     m = p.module('editor')
     fns = expanded_view(p, [f for f in p.functions_in(m) if f.kind != 'overload'])
     ctx.stats['editor_functions_analysed'] = [f.qualname for f in fns]
+    # ED-GUARD, ED-ONCE, ED-SETS, ED-ORDER, ED-PAIR and ED-DIRNAME compared shapes; the evaluation ED-SEM decides what they stood for
     ctx.try_rule(rule_ed_newline, p, fns, 'ED-NEWLINE')
-    ctx.try_rule(rule_ed_dirname, p, fns, 'ED-DIRNAME')
-    ctx.try_rule(rule_ed_guard, p, fns, 'ED-GUARD')
     ctx.try_rule(rule_ed_after_yield, p, fns, 'ED-AFTER-YIELD')
-    ctx.try_rule(rule_ed_once, p, 'ED-ONCE', fns)
-    ctx.try_rule(rule_ed_sets, p, 'ED-SETS', fns)
     ctx.try_rule(rule_ed_fresh, p, fns, 'ED-FRESH')
-    ctx.try_rule(rule_ed_order, p, fns, 'ED-ORDER')
     ctx.try_rule(rule_ed_glob, p, fns, 'ED-GLOB')
     ctx.try_rule(rule_ed_target, p, fns, 'ED-TARGET')
     ctx.try_rule(rule_ed_codec, p, fns, 'ED-CODEC')
     ctx.try_rule(rule_ed_spell, p, fns, 'ED-SPELL')
-    ctx.try_rule(rule_ed_pair, p, 'ED-PAIR', fns)
+    from . import edsem
+    ctx.try_rule(edsem.rule_ed_sem, p, 'ED-SEM')
     ctx.not_decided += ['glob matching semantics', 'filesystem races', 'what the parser/printer produce (C01)']
     ctx.assumptions += ['Python io newline semantics: newline=None translates on read and to os.linesep on write; '
                         'any other value disables translation on read; \'\' and \'\\n\' write verbatim',
@@ -1097,11 +1094,43 @@ def rule_ed_spell(ctx: RuleContext, p: Program, fns: list[FuncInfo], rid: str) -
                   'reaches through the original spelling: the editor then hands out, rewrites or deletes the wrong file')
     n = 0
     m = p.module('editor')
+
+    def role(fn: FuncInfo, arg: Optional[ast.AST]) -> str:
+        """what is being respelled: the path the caller gave, or a path matched by an include directive (keys findings by role, not by
+        the name of the function the normalisation happens to live in)"""
+        names = {x.id for x in ast.walk(arg) if isinstance(x, ast.Name)} if arg is not None else set()
+        globbed = {t.id for lp in ast.walk(fn.node) if isinstance(lp, (ast.For, ast.comprehension)) and isinstance(lp.target, ast.Name)
+                   for t in [lp.target] if any(isinstance(c2, ast.Call) and (dotted(c2.func) or '') in ('glob.glob', 'glob.iglob') for c2 in ast.walk(lp.iter))
+                   or any(isinstance(n2, ast.Name) and n2.id in glob_vars for n2 in ast.walk(lp.iter))}
+        if names & (globbed | glob_vars) or (arg is None and glob_vars):
+            return 'editor: paths matched by an include directive'
+        entries = sorted(e_ for e_ in public if fn.name == e_ or fn.name in reach[e_])
+        if entries and (names & set(fn.params) or not names):
+            return 'editor: the path given by the caller of ' + ' / '.join(entries)
+        return f'editor:{fn.qualname}'
+
+    allf = {f.name: f for f in p.functions_in(m) if f.kind != 'overload' and f.parent is None}
+    public = [nm for nm, f in allf.items() if f.cls is not None and not nm.startswith('_')]
+    reach: dict[str, set[str]] = {}
+    for e_ in public:
+        seen_: set[str] = set()
+        todo_ = [e_]
+        while todo_:
+            cur_ = todo_.pop()
+            for c2 in ast.walk(allf[cur_].node):
+                if isinstance(c2, ast.Call):
+                    nm2 = c2.func.attr if isinstance(c2.func, ast.Attribute) else c2.func.id if isinstance(c2.func, ast.Name) else None
+                    if nm2 in allf and nm2 not in seen_ and nm2 != e_:
+                        seen_.add(nm2)
+                        todo_.append(nm2)
+        reach[e_] = seen_
     for fn in [f for f in p.functions_in(m) if f.kind != 'overload' and f.parent is None]:
+        glob_vars = {a.targets[0].id for a in walk_no_nested(fn.node) if isinstance(a, ast.Assign) and len(a.targets) == 1 and isinstance(a.targets[0], ast.Name)
+                     and any(isinstance(c2, ast.Call) and (dotted(c2.func) or '') in ('glob.glob', 'glob.iglob') for c2 in ast.walk(a.value))}
         for c in walk_no_nested(fn.node):
             if isinstance(c, ast.Call) and (dotted(c.func) or '') in ('os.path.normpath', 'os.path.abspath', 'posixpath.normpath', 'ntpath.normpath'):
                 n += 1
-                ctx.fail(rid, f'editor:{fn.qualname}', 'textual path normalisation',
+                ctx.fail(rid, role(fn, c.args[0] if c.args else None), 'textual path normalisation',
                          f'`{norm(c)[:70]}` in {fn.qualname}: the collapsed spelling is what gets opened / written / deleted (and is the key of the '
                          f'mapping); for `ledger/current/../accounts.bean` with `ledger/current` a symlink to `../archive/2024` it names '
                          f'ledger/accounts.bean, while the path given denotes archive/accounts.bean -- the wrong file is edited',
@@ -1112,7 +1141,8 @@ def rule_ed_spell(ctx: RuleContext, p: Program, fns: list[FuncInfo], rid: str) -
         for c in walk_no_nested(fn.node):
             if isinstance(c, ast.Call) and any((dotted(a) or '') in ('os.path.normpath', 'os.path.abspath') for a in c.args):
                 n += 1
-                ctx.fail(rid, f'editor:{fn.qualname}', 'textual path normalisation',
+                others = [a for a in c.args if (dotted(a) or '') not in ('os.path.normpath', 'os.path.abspath')]
+                ctx.fail(rid, role(fn, others[0] if others else None), 'textual path normalisation',
                          f'`{norm(c)[:70]}` in {fn.qualname}: every path is collapsed textually before it is opened (see the rule text): through a '
                          f'symlinked directory the collapsed spelling names another file', f'{m.relpath}:{c.lineno}')
     ctx.ok(rid, 'editor.py', f'{n} textual normalisations of paths found and reported', nontrivial=False)
